@@ -684,3 +684,90 @@ Lemma F7_old_refuted :
                                [(ETick 200, 0%nat)])) dummy in
    result p = ONil /\ ret_at p = Some 200).
 Proof. vm_compute. repeat split; reflexivity. Qed.
+
+(* ================= Conn.Close against the redial loop (wireConnMu) ================= *)
+
+(* a process that has returned stays returned, whatever happens next *)
+Lemma enabled_not_returned w p : enabled w p = true -> returned p = false.
+Proof. unfold enabled, returned. destruct (code p); intros H; try reflexivity; discriminate H. Qed.
+
+Lemma settle_returned fuel c w i : (i < List.length (procs w))%nat ->
+  returned (nth i (procs w) dummy) = true -> returned (nth i (procs (settle fuel c w)) dummy) = true.
+Proof.
+  revert w; induction fuel; intros w Hi H; simpl; auto.
+  destruct (find_enabled w (procs w) 0) eqn:F; auto.
+  apply find_enabled_some in F. destruct F as (_ & F2 & F3). rewrite Nat.sub_0_r in *.
+  apply IHfuel.
+  - unfold fire_at. simpl. rewrite set_nth_length. exact Hi.
+  - unfold fire_at. simpl. destruct (Nat.eq_dec n i) as [->|Hne].
+    + apply enabled_not_returned in F3. rewrite H in F3. discriminate F3.
+    + rewrite nth_set_nth_neq by exact Hne. exact H.
+Qed.
+
+Lemma apply_event_procs e w i : (i < List.length (procs w))%nat ->
+  nth i (procs (apply_event e w)) dummy = nth i (procs w) dummy /\ (i < List.length (procs (apply_event e w)))%nat.
+Proof.
+  intros Hi. destruct e; simpl; auto. split; [apply app_nth1; exact Hi|rewrite app_length; simpl; lia].
+Qed.
+
+Lemma step_returned w ec i : (i < List.length (procs w))%nat ->
+  returned (nth i (procs w) dummy) = true ->
+  returned (nth i (procs (step w ec)) dummy) = true /\ (i < List.length (procs (step w ec)))%nat.
+Proof.
+  intros Hi H. unfold step. destruct (apply_event_procs (fst ec) w i Hi) as [E L]. split.
+  - apply settle_returned; [exact L|rewrite E; exact H].
+  - rewrite settle_length. exact L.
+Qed.
+
+Lemma run_returned evs : forall w i, (i < List.length (procs w))%nat ->
+  returned (nth i (procs w) dummy) = true -> returned (nth i (procs (run w evs)) dummy) = true.
+Proof.
+  induction evs; simpl; intros w i Hi H; auto.
+  destruct (step_returned w a i Hi H) as [H' L]. apply IHevs; auto.
+Qed.
+
+(* every subset of the flags the two processes look at or set *)
+Fixpoint powerset {A} (l : list A) : list (list A) :=
+  match l with
+  | [] => [[]]
+  | x :: r => let ps := powerset r in ps ++ map (cons x) ps
+  end.
+Definition outage_flags : list flag := [FStConnected; FStReconnecting; FStClosed; FWClosed; FDialOk].
+
+(* Conn.Close during an outage: for EVERY initial valuation of the status / wire / dial flags,
+   with the redial loop holding wireConnMu, both the loop and Close have returned as soon as the
+   system settles - because Close publishes Closed BEFORE it asks for wireConnMu, which is the
+   loop's exit condition - ... *)
+Lemma close_during_outage_init :
+  forallb (fun fs => forallb returned (procs (init 60 fs [reconnectHold; connClose]))) (powerset outage_flags) = true.
+Proof. vm_compute. reflexivity. Qed.
+
+(* ... and stay returned under every later event list *)
+Lemma close_during_outage fs evs : In fs (powerset outage_flags) ->
+  let w := run (init 60 fs [reconnectHold; connClose]) evs in
+  returned (nth 0 (procs w) dummy) = true /\ returned (nth 1 (procs w) dummy) = true.
+Proof.
+  intros Hin w. pose proof close_during_outage_init as H. rewrite forallb_forall in H. specialize (H fs Hin).
+  assert (List.length (procs (init 60 fs [reconnectHold; connClose])) = 2%nat) as L.
+  { unfold init. rewrite settle_length. reflexivity. }
+  rewrite forallb_forall in H. split; apply run_returned; try (rewrite L; lia); apply H; apply nth_In; rewrite L; lia.
+Qed.
+
+(* the other order (wireConnMu first, then the status swap): while the redials fail Close never
+   returns, whatever the clock says; it returns only if a dial succeeds *)
+Lemma close_lockfirst_refuted :
+  blocked_forever (init 60 [FStConnected] [reconnectHold; connClose_lockfirst]) 1 /\
+  blocked_forever (init 60 [FStReconnecting; FWClosed] [reconnectHold; connClose_lockfirst]) 1 /\
+  forallb returned (procs (run (init 60 [FStConnected] [reconnectHold; connClose_lockfirst]) [(ESet FDialOk true, 0%nat)])) = true /\
+  lwf fast_lock None reconnectHold = true /\ lwf fast_lock None connClose_lockfirst = true.
+Proof. vm_compute. repeat split; reflexivity. Qed.
+
+(* Upstream.Close whose deadlines expire while the drain loop is inside sent.List (until tL):
+   bounded by max(ctx, tL) *)
+Lemma wf_upClose_slow D d cto tL id : d <= D -> tL <= D -> wf D None (upClose_slow (Some d) cto tL id) = true.
+Proof.
+  intros Hd Ht. unfold upClose_slow. cbn [wf]. apply wf_upFlush; auto. intros _.
+  pose proof (wf_upCloseRequest D d id Hd) as H. cbn [wf tg time_le]. rewrite !H. simpl.
+  assert (d <=? D = true) as -> by (apply N.leb_le; exact Hd).
+  assert (tL <=? D = true) as -> by (apply N.leb_le; exact Ht). reflexivity.
+Qed.
